@@ -86,6 +86,12 @@ type zzRecMon struct {
 	dom    *vfs.Domain
 	nprobe atomic.Int64
 	lastOp atomic.Int64 // unix nanoseconds of the last step seen from inside Recover (scheduling only, never a verdict)
+	// further sources with leftovers at start-up: their recoveries are held at their first
+	// file-system step (gate) until the watched source's first step has been probed
+	extras   []string
+	gate     chan struct{}
+	reached  map[string]bool
+	gateOnce sync.Once
 }
 
 func zzInRecover() bool {
@@ -160,6 +166,15 @@ var zzRecPrefix = ""
 var zzRecRoutes = []string{"data", "data-recovery", "validate", "partials"}
 
 func (m *zzRecMon) before(ev *vfs.Event) error {
+	for _, x := range m.extras {
+		if (m.ofSource(ev.Path, x) || m.ofSource(ev.Path2, x)) && zzInRecover() {
+			m.mu.Lock()
+			m.reached[x] = true
+			m.mu.Unlock()
+			<-m.gate // held at its first step inside Recover
+			return nil
+		}
+	}
 	src, _ := m.armed.Load().(string)
 	if src == "" || !(m.ofSource(ev.Path, src) || m.ofSource(ev.Path2, src)) {
 		return nil
@@ -168,6 +183,9 @@ func (m *zzRecMon) before(ev *vfs.Event) error {
 		return nil
 	}
 	<-m.up
+	if len(m.extras) > 0 {
+		m.gateOnce.Do(m.probeExtras)
+	}
 	m.lastOp.Store(time.Now().UnixNano())
 	defer func() { m.lastOp.Store(time.Now().UnixNano()) }()
 	m.mu.Lock()
@@ -416,6 +434,52 @@ func sortStrings(a []string) {
 	}
 }
 
+// probeExtras runs once, at the watched source's first recovery step after the server came
+// up: every further source that had leftovers at start-up is either held inside its own
+// recovery (at the gate) or has not begun it; either way a request for it must be
+// answered 503.  (A source that is never seen to begin its recovery within 3 s although
+// the watched one is already at work is reported only if it ANSWERS requests meanwhile.)
+func (m *zzRecMon) probeExtras() {
+	res := m.e.res
+	deadline := time.Now().Add(3 * time.Second)
+	for time.Now().Before(deadline) {
+		m.mu.Lock()
+		n := len(m.reached)
+		m.mu.Unlock()
+		if n == len(m.extras) {
+			break
+		}
+		time.Sleep(20 * time.Millisecond)
+	}
+	for _, x := range m.extras {
+		m.mu.Lock()
+		at := m.reached[x]
+		m.mu.Unlock()
+		for _, route := range zzRecRoutes {
+			i := int(m.nprobe.Add(1))
+			r := m.request(route, x, i)
+			st := m.doQuick(r)
+			r.Status = st
+			res.Counters["recovery_probes_other_sources"]++
+			if st == 503 || st < 0 {
+				continue
+			}
+			fp, what := "processed-during-recovery-of-another-source/", "is held inside its start-up recovery"
+			if !at {
+				fp, what = "processed-before-start-up-recovery-began/", "has leftovers in its stage directory and has not begun its start-up recovery (while the recovery of "+m.sc.Source+" is already at work)"
+			}
+			m.mu.Lock()
+			if len(res.Violations) < 100 {
+				res.Violations = append(res.Violations, zzViolation{Clause: "unavailable-while-recovering", Fingerprint: "C15/" + fp + route,
+					Detail: fmt.Sprintf("source %q %s; a %s request for it was answered %d instead of 503", x, what, route, st), Scenario: map[string]any{"sources_with_leftovers": append([]string{m.sc.Source}, m.extras...)}, Index: -2})
+			}
+			res.Counters["violations_total"]++
+			m.mu.Unlock()
+		}
+	}
+	close(m.gate)
+}
+
 // zzRecNew prepares the monitor and (before the server exists) the start-up scenario
 func zzRecNew(e *zzEnv, rng *rand.Rand, work string) *zzRecMon {
 	m := &zzRecMon{e: e, up: make(chan struct{}), key: e.attKey}
@@ -427,6 +491,18 @@ func zzRecNew(e *zzEnv, rng *rand.Rand, work string) *zzRecMon {
 	sc := &zzRecScenario{Kind: "startup", Source: zzRecPrefix + "rec0", Statuses: map[int]int{}}
 	m.zzPlant(rng, work, zzRecPrefix+"rec0", sc)
 	m.sc = sc
+	// half of the instances come up with leftovers of 5-8 further sources as well
+	m.gate = make(chan struct{})
+	m.reached = map[string]bool{}
+	if rng.Intn(2) == 0 {
+		for k := 1; k <= 5+rng.Intn(4); k++ {
+			x := zzRecPrefix + "xs" + strconv.Itoa(k)
+			m.zzPlant(rng, work, x, &zzRecScenario{Kind: "startup-other", Source: x, Statuses: map[int]int{}})
+			m.extras = append(m.extras, x)
+		}
+	} else {
+		close(m.gate)
+	}
 	m.armed.Store(zzRecPrefix + "rec0")
 	return m
 }
